@@ -698,30 +698,30 @@ func (self Node) Gets(keys []PathNode, opts *Options) error {
 	}
 
 	need := len(keys)
+	kind := keys[0].Path.Type()
+	if kind != PathStrKey && kind != PathIntKey {
+		return errNode(meta.ErrUnsupportedType, "Gets only supports string and integer keys", nil)
+	}
 	for count := 0; it.HasNext() && count < need; {
+		// read ONE pair, then compare its key with every wanted key (the keys may be asked in any order)
+		var ks string
+		var ki int
+		var s, e int
+		if kind == PathStrKey {
+			_, ks, s, e = it.NextStr(UseNativeSkipForGet)
+		} else {
+			_, ki, s, e = it.NextInt(UseNativeSkipForGet)
+		}
+		if it.Err != nil {
+			return errNode(meta.ErrRead, "", it.Err)
+		}
 		for j, id := range keys {
-			if id.Path.Type() == PathStrKey {
-				exp := id.Path.str()
-				_, key, s, e := it.NextStr(UseNativeSkipForGet)
-				if it.Err != nil {
-					return errNode(meta.ErrRead, "", it.Err)
-				}
-				if key == exp {
-					keys[j].Node = self.slice(s, e, et)
-					count += 1
-					break
-				}
-			} else if id.Path.Type() == PathIntKey {
-				exp := id.Path.int()
-				_, key, s, e := it.NextInt(UseNativeSkipForGet)
-				if it.Err != nil {
-					return errNode(meta.ErrRead, "", it.Err)
-				}
-				if key == exp {
-					keys[j].Node = self.slice(s, e, et)
-					count += 1
-					break
-				}
+			if id.Path.Type() != kind {
+				continue
+			}
+			if (kind == PathStrKey && id.Path.str() == ks) || (kind == PathIntKey && id.Path.int() == ki) {
+				keys[j].Node = self.slice(s, e, et)
+				count += 1
 			}
 		}
 	}
